@@ -39,6 +39,12 @@ CLAIMED = {
         ref='DESIGN.md §6 C07',
         note=TRUST + 'Bounded: 2 explicit users plus an aggregated remainder, 1-2 farms, window of 10 epochs; the weight-history representation invariant '
              '(no snapshot older than the claim cursor) is assumed in pre-states.'),
+    'C08': dict(
+        text='Step obligations on the public ManagePosition messages (create / expand / close full and partial / withdraw) from a symbolic farm-manager state: '
+             'sender role (owner, stranger, pool manager), open/closed state, amounts, times and expiry are symbolic or case-split; authorisation, the exact '
+             'unlock boundary, full payment, LP conservation on partial closes, id prefixes / counter and non-interference with other positions are decided per path.',
+        ref='DESIGN.md §6 C08',
+        note=TRUST + 'Identifiers are concrete (fresh / taken); the pool-manager side of locking is covered by C14 when built.'),
     'C09': dict(
         text='calculate_emergency_penalty executed symbolically (amount, duration, base penalty, times full range): <= 90%, equals the capped product with '
              'the code\'s 18-decimal floors, zero once unlocked, non-increasing in time.',
@@ -49,6 +55,13 @@ CLAIMED = {
              'monotone in amount and in duration (relational: two executions compared).',
         ref='DESIGN.md §6 C10',
         note=TRUST + 'The total-vs-sum invariant over histories is a separate (bounded-history) obligation.'),
+    'C11': dict(
+        text='Step obligations on the public ManageFarm messages: creation under every fee configuration (fee amount symbolic incl. zero, fee in the reward denom '
+             'or another) and attached-funds shape (exact, reward only, extra coin, overpaid fee), automatic closing of expired farms with refunds to their owners, '
+             'the concurrent-farm limit, expansion (owner only, before the end, same denom, multiples of the rate) and closing (farm owner or contract owner, exact '
+             'remainder to the farm owner only).',
+        ref='DESIGN.md §6 C11',
+        note=TRUST + 'At most 2 pre-existing farms per LP token (max_concurrent_farms = 2); epoch/time consistency assumed from C18.'),
     'C12': dict(
         text='Relational obligations: Simulation vs Swap on the same symbolic constant-product state (all amounts equal on every accepted path); '
              'SimulateSwapOperations vs ExecuteSwapOperations over a 2-hop route with the pricing kernel as an uninterpreted function (glue only); '
